@@ -31,6 +31,16 @@ def gen_names(rnd, n):
     return names
 
 
+def fresh(name):
+    """an equal but distinct string object (names that reach the library from different sources - a parsed
+    file, a formatted spec - are equal, not identical; single characters are interned by CPython anyway)."""
+    return (name + '.')[:-1]
+
+
+def fresh_cliques(cliques):
+    return [tuple(fresh(a) for a in cl) for cl in cliques]
+
+
 def gen_sizes(rnd, n, max_size=4, max_joint=4096, p_one=0.08):
     sizes = []
     for _ in range(n):
